@@ -126,9 +126,13 @@ def _exec_history(case):
                 out.fail(f"state_dict/{fz}/{wk}/not-plain", f"state_dict[{k!r}] is a {type(v).__name__}")
                 return out
         # (2) survives the serializer unchanged
-        sd2 = cut(roundtrip, dict(sd), ser)
+        handed = dict(sd)  # the object the serializer is given: saving must not consume or alter it
+        sd2 = cut(roundtrip, handed, ser)
         if isinstance(sd2, Raised):
             return out.fail(f"serialize/{ser}/raises:{sd2.type}", sd2.text)
+        if set(handed) != set(sd) or any(handed[k] is not sd[k] for k in sd):
+            out.fail(f"serialize/{ser}/argument-modified", f"saving changed the state_dict it was given: {sorted(set(sd) ^ set(handed))[:4]} missing/added")
+            return out
         if set(sd2) != set(sd):
             out.fail(f"serialize/{ser}/keys", f"keys changed: {sorted(set(sd) ^ set(sd2))[:4]}")
             return out
@@ -161,8 +165,9 @@ def _exec_history(case):
         tgt = tgt.to(dtype)
         ttag = f"load/{target}/{fz}/{wk}"
         lnq = "+quantized-layernorm" if (has_ln and any(isinstance(m, torch.nn.LayerNorm) for m in current.modules() if isinstance(m, QModuleMixin))) else ""
+        given = dict(sd2)
         if target == "requantize":
-            r = cut(requantize, tgt, dict(sd2))
+            r = cut(requantize, tgt, given)
         else:
             if target in ("same", "same-frozen", "same-assign"):
                 quantize(tgt, weights=wq, activations=aq)
@@ -171,11 +176,13 @@ def _exec_history(case):
                     freeze(tgt)
             else:
                 quantize(tgt)
-            r = cut(tgt.load_state_dict, dict(sd2), assign=True) if target == "same-assign" else cut(tgt.load_state_dict, dict(sd2))
+            r = cut(tgt.load_state_dict, given, assign=True) if target == "same-assign" else cut(tgt.load_state_dict, given)
         if isinstance(r, Raised):
             if lnq and target in ("default", "requantize"):
                 return out.fail(f"load/{target}/raises:{r.type}{lnq}", f"{r.text} ({case['wq']}, act {case['aq']}, {fam}, {fz})")
             return out.fail(f"{ttag}/raises:{r.type}", f"{r.text} ({case['wq']}, act {case['aq']}, {fam})")
+        if set(given) != set(sd2) or any(given[k] is not sd2[k] for k in sd2):
+            out.fail(f"load/{target}/argument-modified", f"loading consumed or altered the state_dict it was given ({sorted(set(given) ^ set(sd2))[:4]})")
         # (3) module by module
         tgt_mods = {n: m for n, m in tgt.named_modules() if isinstance(m, QModuleMixin)}
         if set(tgt_mods) != set(src_facts):
